@@ -45,6 +45,7 @@ func sortedKeys(ks [][]byte) [][]byte {
 func genC01Txn(r *vx.Rand, keys [][]byte) c01txn {
 	t := c01txn{pess: r.Chance(45), mode: pick(r, modes), commit: r.Chance(85)}
 	n := 1 + r.Intn(6)
+	touched := map[string]bool{}
 	for i := 0; i < n; i++ {
 		var o c01op
 		k := pick(r, keys)
@@ -87,18 +88,28 @@ func genC01Txn(r *vx.Rand, keys [][]byte) c01txn {
 			}
 			o = c01op{kind: "lock", keys: ks, flags: fl}
 		}
-		t.ops = append(t.ops, o)
-		// pessimistic DML: lock the key before writing it (most of the time)
-		if t.pess && (o.kind == "set" || o.kind == "delete" || o.kind == "insert") && r.Chance(80) {
-			lk := c01op{kind: "lock", keys: o.keys, flags: pick(r, []string{"-", "n", "-"})}
-			if o.kind == "insert" {
-				// TiDB buffers the insert first, so that the lock request carries the not-exist assertion
-				t.ops = append(t.ops, lk)
-			} else {
-				t.ops[len(t.ops)-1] = lk
-				t.ops = append(t.ops, o)
+		// an insert presumes the key absent: only on keys the transaction has not touched yet (TiDB consults its buffer
+		// first); in a pessimistic transaction it is always the staged insert + lock of InsertLocked
+		if o.kind == "insert" && touched[string(k)] {
+			o.kind = "set"
+		}
+		if o.kind == "insert" && t.pess {
+			o.kind = "insertlocked"
+			o.flags = pick(r, []string{"-", "n", "-"})
+		}
+		switch o.kind {
+		case "set", "insert", "insertlocked", "delete", "lock", "lockedset", "lockeddelete":
+			for _, x := range o.keys {
+				touched[string(x)] = true
 			}
 		}
+		// pessimistic DML locks the key it writes first and gives the write up if the lock fails (the contract under which
+		// a pessimistic transaction's writes are protected: prewrite does not re-check unlocked keys of such a transaction)
+		if t.pess && (o.kind == "set" || o.kind == "delete") {
+			o.flags = pick(r, []string{"-", "n", "-"})
+			o.kind = "locked" + o.kind
+		}
+		t.ops = append(t.ops, o)
 	}
 	return t
 }
@@ -124,6 +135,16 @@ func runC01Txn(c *hub.Client, ci, tn int, t c01txn) {
 			c.Set(o.keys[0], val(ci, tn, i))
 		case "insert":
 			c.Insert(o.keys[0], val(ci, tn, i))
+		case "insertlocked":
+			c.InsertLocked(o.keys[0], val(ci, tn, i), o.flags)
+		case "lockedset":
+			if c.Lock(o.keys, o.flags) == "ok" {
+				c.Set(o.keys[0], val(ci, tn, i))
+			}
+		case "lockeddelete":
+			if c.Lock(o.keys, o.flags) == "ok" {
+				c.Delete(o.keys[0])
+			}
 		case "delete":
 			c.Delete(o.keys[0])
 		case "lock":
